@@ -60,6 +60,8 @@ Step(s, ev) ==
     \* ladder exhausted: an OPTIMAL/INFEASIBLE that no exact test confirmed is reported as UNSOLVED
     [] s.pc = "next" /\ e = "return" /\ s.level = MaxMpf + 1 /\ ev.b = 0
          /\ ev.a = (IF s.status \in {OPT, INF} THEN UNSOLVED ELSE s.status) -> [s EXCEPT !.pc = "done", !.status = ev.a]
+    \* an internal call failed (EGcallD): the driver leaves with a non-zero return value from wherever it is
+    [] s.pc \notin {"start", "done"} /\ e = "return" /\ ev.b # 0 -> [s EXCEPT !.pc = "done", !.certified = FALSE]
     [] OTHER -> Reject
 
 RECURSIVE Fold(_, _, _)
